@@ -16,4 +16,17 @@ CLAIMS = {
         "note": "Undecided: element-wise equality of masks, compositions beyond per-operation rules, behaviour of numpy/"
                 "xarray/h5py/VTK beyond the documented view-vs-copy and default-tolerance facts listed as trusted base.",
     },
+    "C03": {
+        "technique": "static analysis: operator-table exhaustiveness and delegate resolution, term normal form of reflected "
+                     "operators, constructor-keyword provenance, effect/alias analysis for operand purity, guard dominance "
+                     "(CFG) for mesh/component rejection, label/mapping precondition over all Field constructions",
+        "level": _GEN + "For C03: every arithmetic dunder maps to the documented numpy function with operands in order, results "
+                 "are built on self.mesh from function(self.array, other.array), no operator/helper writes operand memory, "
+                 "mesh and component compatibility tests dominate every combination of two fields' arrays (including the "
+                 "numpy-ufunc entry point), unsupported types raise TypeError, metadata of the generic binary path depends on "
+                 "both operands, and no construction forwards a mapping without its labels.",
+        "note": "Undecided: numerical equality with numpy broadcasting for all dtypes; label recovery when stacking; "
+                "validity/unit of ufunc results (not demanded by the statement). Known finding: label conflict between two "
+                "vector operands with different labels (left operand wins).",
+    },
 }
